@@ -342,6 +342,7 @@ func (s *SimStore) appendBatch(b []kvWrite) {
 	s.log.mu.Lock()
 	s.log.batches = append(s.log.batches, b)
 	s.log.mu.Unlock()
+	s.committed() // a write outside a transaction is a commit of its own
 	if s.OnCommit != nil {
 		s.OnCommit(b)
 	}
